@@ -10,7 +10,8 @@ PROP_FILE = 'Properties/C12.v'
 RULE = ('explicit scripts on timer.Timer (every operation sequence of length <= 3 over an 11-letter alphabet '
         '{tick, wDIV, wTIMA FF/42, wTMA FF/31, wTAC 4/5/6/7/1} from start states at every counter phase around the '
         'rising and falling edge of each selectable bit (3, 5, 7, 9), around the counter wrap and with TIMA = FE/FF; '
-        'directed reload-window scenarios; long random schedules), each also judged by an independent Python '
+        'directed reload-window scenarios; long random schedules, every second one through Mapper.Read/Write FF04-FF07 '
+        'with a runFrame-style cycle end and IF bit 2), each also judged by an independent Python '
         'evaluator of the cycle-level statement; in-process depth-first sweeps (tm.sweep) of ALL sequences of '
         'length 5 from every start state and length 6 from a subset (thorough: 6 / 7), compared by digest per '
         'first operation and located by descent; a case is non-trivial when TIMA changes or an interrupt is '
@@ -22,7 +23,7 @@ ASSUMPTIONS = ['register writes carry a byte (Mapper.Write passes a uint8)',
                'per machine cycle the bus writes precede Timer.EndMachineCycle (gameboy.go runFrame)']
 ALLOWED_AXIOMS = []
 KEEP_PREFIX = 0
-MAX_REPORT = 8
+MAX_REPORT = 3
 
 # ---------------------------------------------------------------------------------------------------------
 # operations: (kind, value) with kinds tick/wdiv/wtima/wtma/wtac; encoded for tm.sweep as kind*256+value
@@ -147,9 +148,46 @@ def spec_eval(lines):
             out.append(s.obs())
         elif a[0] == 'tm.c':
             out.append('%d' % s.cnt)
+        elif a[0] == 'tmb.new':
+            s = Spec()
+        elif a[0] == 'tmb.setc':
+            s.cnt = int(a[1], 0) & 0xFFFF
+        elif a[0] == 'tmb.cycle':
+            irq = s.tick()
+            out.append('%d %s' % (irq, s.obs()))
+        elif a[0] == 'tmb.r':
+            out.append(s.obs())
+        elif a[0] == 'tmb.w':
+            reg = {0xFF04: 'wdiv', 0xFF05: 'wtima', 0xFF06: 'wtma', 0xFF07: 'wtac'}.get(int(a[1], 0))
+            if reg:
+                s.write(reg, int(a[2], 0) & 0xFF)
         else:
             return None, set()
     return out, s.tags
+
+
+BUS_ADDR = dict(wdiv=0xFF04, wtima=0xFF05, wtma=0xFF06, wtac=0xFF07)
+
+
+def through_bus(lines):
+    """the same schedule issued through Mapper.Read/Write and a runFrame-style cycle end"""
+    out = ['tmb.new']
+    for l in lines:
+        a = l.split()
+        if a[0] == 'tm.setc':
+            out.append('tmb.setc ' + a[1])
+        elif a[0] == 'tm.tick':
+            out.append('tmb.cycle')
+        elif a[0] == 'tm.r':
+            out.append('tmb.r')
+        elif a[0][3:] in BUS_ADDR:
+            out.append('tmb.w 0x%04x %s' % (BUS_ADDR[a[0][3:]], a[1]))
+    return out
+
+
+def cycle_ends(lines):
+    """observations a program on the bus can make: the lines printed by cycle ends (five fields) and counters"""
+    return [l for l in (lines or []) if len(l.split()) != 4]
 
 
 def first_diff(a, b):
@@ -224,6 +262,8 @@ def generate(rng, tier):
                 lines += op_lines((kind, v))
             steps += 1
         lines.append('tm.c')
+        if k % 2 == 1:
+            lines = through_bus(lines)
         cases.append(('r%d' % k, lines))
     INFO.clear()
     INFO.update(exhaustive=False,
@@ -295,6 +335,10 @@ def judge(case, impl, model):
         parts.append('model (proved equal to TimerSpec by C12_refines) agrees with the evaluator')
     if tags:
         parts.append('schedule is in the class of earlier defects: ' + ', '.join(sorted(tags)))
+    if impl is not None and model is not None and cycle_ends(impl) == cycle_ends(model):
+        parts.insert(0, 'INTRA-CYCLE ONLY: every cycle-end observation agrees; the difference is in a register read '
+                        'issued after a write within the same machine cycle, which the bus cannot do and the '
+                        'statement leaves open - the model (method-call granularity) no longer describes the code')
     return '; '.join(parts)
 
 
@@ -362,7 +406,7 @@ def extra(check, ci, cm, cases):
         plan = [(st, 6, ALPHA) for st in starts] + [(st, 7, ALPHA) for st in starts[::6]] + \
                [(st, 5, ALPHA_BIG) for st in starts[::3]]
     else:
-        plan = [(st, 5, ALPHA) for st in starts] + [(st, 6, ALPHA) for st in starts[1::5]]
+        plan = [(st, 5, ALPHA) for st in starts] + [(st, 6, ALPHA) for st in starts[1::3]]
     sweeps = []
     for n, (st, depth, alpha) in enumerate(plan):
         codes = ' '.join(str(code(o)) for o in alpha)
@@ -380,7 +424,7 @@ def extra(check, ci, cm, cases):
             f = l.split()
             if len(f) == 3:
                 nt += int(f[2])
-        if si.get(cid) != sm.get(cid) or not si.get(cid):
+        if (si.get(cid) != sm.get(cid) or not si.get(cid)) and len(viol) < 2:
             script = locate(lines[:-1], depth, alpha)
             if script is None:
                 script = lines
@@ -394,7 +438,7 @@ def extra(check, ci, cm, cases):
         a, b = si.get(cid) or [], sm.get(cid) or []
         if a and len(a[-1].split()) == 3:
             irqs += int(a[-1].split()[2])
-        if a != b or not a:
+        if (a != b or not a) and len(viol) < 3:
             d = first_diff(a, b)
             upto = (d[0] + 1) * 256 if d else n_ops
             script = [lines[0]] + rand_script(int(lines[1].split()[1]), min(upto, n_ops))
